@@ -139,6 +139,16 @@ theorem C15_unencodable_registration_refused_after_D28 (hleaf : Gen.SurviveApi.r
     simp only [encodesFirst, henc, if_true]
     exact ⟨e, rfl⟩
 
+/-- **every service the registry takes from `async_register_service` has passed the dry-run encode** (no hypothesis on the leaf: the
+proof is `register_leaf_on : register_encodes_first = true := rfl`, so on a tree where D28 is reverted this theorem — and with it
+`register_ok`, `apiStep_ok`, `C15_history_closed_partial` — no longer builds).  `ApiSafe` of a `register` / `update` block is therefore
+only `DryRunSound`: *if* the dry run accepts the service, its own records are encodable. -/
+theorem C15_registered_service_passed_dry_run (lower : String → String) {υ : Type} {d d' : CS υ} {s : Svc} {strict : Bool}
+    (h : registerE lower d s strict = .ok d') : DryRun s := registerE_dryRun lower h
+
+theorem C15_updated_service_passed_dry_run (lower : String → String) {υ : Type} {d d' : CS υ} {s : Svc}
+    (h : updateE lower d s = .ok d') : DryRun s := updateE_dryRun lower h
+
 /-- a 64-byte label (`h` × 64) in front of `local` -/
 def longHost : Wire.WName := [List.replicate 64 104, [108, 111, 99, 97, 108]]
 
@@ -155,5 +165,19 @@ theorem C15_unencodable_server_refuted (lower : String → String) (ettl : Nat) 
   have hbad : ∃ l ∈ reencName longHost, ¬ l.length ≤ 63 := by decide +kernel
   obtain ⟨l, hl, hn⟩ := hbad
   exact hn (hlab l hl)
+
+/-- a service whose server name has a 64-byte label -/
+def longSvc : Svc :=
+  { type := "_a._tcp.local.", name := "x._a._tcp.local.", server := textOfName longHost, port := 80, weight := 0, priority := 0,
+    text := [0], hostTtl := 120, otherTtl := 4500, v4 := [[10, 0, 0, 1]], v6 := [] }
+
+/-- non-vacuity of `DryRunSound`, premise false: the dry run refuses the service with a 64-byte server label
+(so `DryRunSound` asks nothing of it, where `SvcSafe` used to exclude it by assumption) -/
+theorem longSvc_refused : ¬ DryRun longSvc := by
+  unfold DryRun
+  intro h
+  have : (encodesFirst true longSvc).toOption.isSome = false := by decide +kernel
+  rw [h] at this
+  exact absurd this (by decide)
 
 end Zc
